@@ -474,6 +474,9 @@ def run(ctx):
     # dump_dir_entry stores the entry in the image with set_value_at(i) and copies the bytes location_of_index(i) names to the destination:
     # the two must address the same slot (same rule instance as C16/slot-siblings)
     c16.rule_slot_siblings(ctx, R="C09/slot-image-agree")
+    # the small accessors and pass-through wrappers the rules above look through by name return what their names say (rules/accessors.py)
+    from rules import accessors as _acc
+    _acc.rule_accessors(ctx, "C09")
 
 
 def thorough(ctx):
